@@ -390,6 +390,8 @@ where
             .progress_count(self.variants.ncols() as u64)
             .enumerate()
             .map(|(i, row)| {
+                #[cfg(feature = "verif-hooks")]
+                crate::verif_hooks::point("distance", i as u64);
                 let mut partial_dists: Vec<(f64, f64)> =
                     Vec::with_capacity(self.variants.ncols() - (i + 1));
                 for j in (i + 1)..self.variants.ncols() {
